@@ -37,7 +37,33 @@ def run_case(case):
         body = (MARK % i) * R.choice([1, 3, 40]) + bytes(R.getrandbits(8) for _ in range(R.choice([0, 7, 100])))
         members.append((f"dir/{NAMEMARK % i}.txt", body))
 
+    def write_cli():
+        # the command line: `py7zr c -P [-v SIZE] arc.7z dir` asks for the password (fed through stdin) - with and without volumes
+        import glob
+        import shutil
+        import subprocess
+        import sys
+        import tempfile
+        from ..common import REPO
+        wd = tempfile.mkdtemp(prefix="c11-", dir="/dev/shm" if os.path.isdir("/dev/shm") else None)
+        try:
+            for n, d in members:
+                p = os.path.join(wd, n)
+                os.makedirs(os.path.dirname(p), exist_ok=True)
+                with open(p, "wb") as f:
+                    f.write(d)
+            args = [sys.executable, "-m", "py7zr", "c", "-P"] + (["-v", case["vol"]] if case.get("vol") else []) + ["arc.7z", "dir"]
+            r = subprocess.run(args, cwd=wd, env=dict(os.environ, PYTHONPATH=REPO), input=pw + "\n", capture_output=True, text=True, timeout=120)
+            if r.returncode != 0:
+                raise RuntimeError(f"cli exit {r.returncode}: {r.stderr[-200:]}")
+            parts = sorted(glob.glob(os.path.join(wd, "arc.7z.[0-9]*"))) or [os.path.join(wd, "arc.7z")]
+            return b"".join(open(x, "rb").read() for x in parts)
+        finally:
+            shutil.rmtree(wd, ignore_errors=True)
+
     def write():
+        if case.get("via") == "cli":
+            return write_cli()
         bio = io.BytesIO()
         kw = {}
         if case["hdrenc_ctor"]:
@@ -181,6 +207,9 @@ def run(tier, rep, ev):
         for hi, how in enumerate(("w", "a-fresh", "a-existing")):
             k += 1
             cases.append({"chain": None, "password": p, "hdrenc_ctor": bool((pi + hi) % 2), "sets": [], "seed": k, "nmembers": 2 + k % 2, "open": how})
+    for vol in (None, "1k", "3000", "1m"):
+        k += 1
+        cases.append({"chain": None, "password": ["secret", "pä ß", "Ключ", "a" * 40][k % 4], "hdrenc_ctor": False, "sets": [], "seed": k, "nmembers": 3, "via": "cli", "vol": vol})
     for how in ("a-fresh", "a-existing"):
         for ch in (chains[:4] if tier == "quick" else chains[:-1]):
             k += 1
